@@ -181,7 +181,8 @@ def build_job(job, tier):
     defs = ["-D" + d for d in job.get("defines", [])]
     key = sha(open(hsrc, "rb").read().decode() + repr(sorted(job.get("defines", []))) + repr(job.get("units")) +
               repr(job.get("eh")) + repr(job.get("entries")) + repr(job.get("ll2c_flags")) + repr(job.get("models", True)) +
-              (repr(job.get("extra_models")) if job.get("extra_models") else "") + run_pregen(job, cachedir, cfg))
+              (repr(job.get("extra_models")) if job.get("extra_models") else "") + (repr(job.get("drop_functions")) if job.get("drop_functions") else "") +
+              run_pregen(job, cachedir, cfg))
     jd = os.path.join(cachedir, "job-%s-%s" % (job["name"], key))
     gb = os.path.join(jd, "job.gb")
     if os.path.exists(gb):
@@ -216,6 +217,15 @@ def build_job(job, tier):
     r = run(["llvm-link-14", hbc] + bcs + ["-o", allbc])
     if r.returncode != 0:
         raise ToolError("llvm-link: " + r.stderr[-3000:])
+    if job.get("drop_functions"):
+        # optional job key: bodies of the named IR functions are deleted before dead-code elimination (used to leave out a unit's
+        # static initialiser, e.g. _GLOBAL__sub_I_PropertyCodecs.cc which instantiates all 30 default codecs x 7 entity kinds;
+        # the globals it would initialise must then not be used by the harness -- stated in the job's bounds/assumptions)
+        cut = os.path.join(jd, "cut.bc")
+        r = run(["llvm-extract-14", "--delete"] + ["--func=" + f for f in job["drop_functions"]] + [allbc, "-o", cut])
+        if r.returncode != 0:
+            raise ToolError("llvm-extract: " + r.stderr[-3000:])
+        allbc = cut
     red = os.path.join(jd, "red.bc")
     passes = ["-internalize", "-internalize-public-api-list=" + ",".join(job["entries"]), "-globaldce", "-lower-expect"]
     if not job.get("keep_atomics"):
@@ -479,7 +489,8 @@ def run_shard(job, tier, entry, params, jd):
     failed = [x for x in results if x["status"] == "FAILURE" and not is_witness(x)]
     res["failed"] = [dict(property=x["property"], description=x["description"], function=x["function"]) for x in failed]
     unknown = [x for x in results if x["status"] not in ("SUCCESS", "FAILURE")]
-    if unknown:
+    res["unknown"] = len(unknown)
+    if unknown and not failed:
         res["status"] = "error"; res["detail"] = "property status " + unknown[0]["status"]; return res
     res["status"] = "failed" if failed else "ok"
     res["gb"] = gb
@@ -528,7 +539,7 @@ def race(gb, entry, job, solvers, timeout, mem):
     return dict(status="done", out=o, err=e, rc=rc, wall=time.time() - t0, maxrss_mb=resource.getrusage(resource.RUSAGE_CHILDREN).ru_maxrss // 1024, solver=winner)
 
 def get_trace(job, tier, shard, prop):
-    timeout = 1800
+    timeout = 900
     mem = max(job.get("mem_gb", 6), 8)
     cmd = cbmc_cmd(shard["gb"], shard["entry"], job, "minisat" if shard.get("solver") in (None, "cvc5", "z3") else shard["solver"], ["--trace", "--property", prop, "--stop-on-fail"])
     r = run_cbmc_once(cmd, timeout, mem)
@@ -618,7 +629,15 @@ def check_property(prop_id, tier, spec, seed):
             tool_errors.append("%s: VACUOUS - witness not reachable: %s" % (s["name"], s["witness_unreached"][:5]))
         if s["witness_total"] == 0:
             tool_errors.append("%s: no reachability witness in harness" % s["name"])
-        for fprop in s.get("failed", []):
+        flist = s.get("failed", [])
+        # replay at most 3 distinct failures per query: harness assertions first, then one per (function, kind of memory error)
+        flist = sorted(flist, key=lambda f: (0 if ".assertion." in (f["property"] or "") else 1, f["property"] or ""))
+        seen_keys = set(); sel = []
+        for fprop in flist:
+            key = (fprop["function"], re.sub(r" in .*", "", fprop["description"]))
+            if key in seen_keys: continue
+            seen_keys.add(key); sel.append(fprop)
+        for fprop in sel[:3]:
             desc = fprop["description"]
             if desc.startswith("no body for callee"):
                 tool_errors.append("%s: MISSING-MODEL %s" % (s["name"], desc)); continue
